@@ -63,8 +63,10 @@ func record(env *core.Env, emit func(map[string]any)) (*core.Summary, error) {
 						if withTimer && cr.Intn(2) == 0 {
 							req["tmo"] = 1
 						}
-					case x < 6:
+					case x < 5:
 						req["op"] = "Lock"
+					case x < 6:
+						req["op"], req["pw"] = "UnlockT", pick()
 					case x < 10:
 						req["op"], req["pw"] = "SetPasswd", pick()
 						if cr.Intn(4) != 0 {
